@@ -193,7 +193,9 @@ type world struct {
 	emitted  []*msg // emissions of the current step
 	// violations of the send-time oracle found inside SyncClient callbacks during the current step
 	sendViolations []string
+	pathViolations []string
 	panics         []string
+	rankMisses     int // mined id rank could not be realised (not an error, only counted)
 	handlerErrs    []string
 	dataSize       func() int
 	// observation cache: a step changes the state of the acting replica only
@@ -405,8 +407,18 @@ func (w *world) emit(from *replica, m *msg) {
 	w.seq++
 	m.Seq = w.seq
 	w.emitted = append(w.emitted, m)
-	// send-time oracle: everything a message advertises is held (stored) by the sender now
+	// send-time oracle: everything a message advertises is held (stored) by the sender now, and the
+	// snapshot path it advertises is the path of its current in-memory root (first element = root,
+	// last = tree root): the receiver chooses the common snapshot from it
 	if from.tree != nil {
+		if len(m.Path) > 0 {
+			cur := w.name(from.tree.Root().Id)
+			if m.Path[0] != cur || m.Path[len(m.Path)-1] != "c0" {
+				w.pathViolations = append(w.pathViolations,
+					fmt.Sprintf("%s sends %s to %s with snapshot path %v while its in-memory root is %s (heads=%v)",
+						from.name, m.Kind, m.To, m.Path, cur, m.Heads))
+			}
+		}
 		st := from.tree.Storage()
 		for _, set := range [][]string{m.Heads, m.Changes, m.Path} {
 			for _, n := range set {
@@ -502,6 +514,7 @@ type stepResult struct {
 func (w *world) begin() {
 	w.emitted = nil
 	w.sendViolations = nil
+	w.pathViolations = nil
 }
 
 func (w *world) end(err error) stepResult {
@@ -512,6 +525,14 @@ func (w *world) end(err error) stepResult {
 }
 
 func (w *world) addContent(r *replica, snapshot bool) stepResult {
+	return w.addContentRanked(r, snapshot, "", "", false)
+}
+
+// addContentRanked creates the change so that its real id lies strictly between the real ids lo
+// and hi ("" = unbounded) in lexical order: the payload is varied until the id of the prepared
+// change (ObjectTree.PrepareChange, nothing is added) has the wanted rank ("mining"), then the very
+// same content is added. Mined changes are unencrypted so that the bytes are deterministic.
+func (w *world) addContentRanked(r *replica, snapshot bool, lo, hi string, mine bool) stepResult {
 	w.begin()
 	w.touch(r)
 	size := 16
@@ -520,15 +541,38 @@ func (w *world) addContent(r *replica, snapshot bool) stepResult {
 	}
 	data := make([]byte, size)
 	_, _ = rand.Read(data[:min(16, size)])
-	r.tree.Lock()
-	res, err := r.tree.AddContent(bg, objecttree.SignableChangeContent{
+	content := objecttree.SignableChangeContent{
 		Data:              data,
 		Key:               w.pool.keys.SignKey,
 		IsSnapshot:        snapshot,
-		ShouldBeEncrypted: true,
+		ShouldBeEncrypted: !mine,
 		DataType:          "verif",
-	})
+		Timestamp:         time.Now().Unix(),
+	}
+	r.tree.Lock()
+	mined := ""
+	if mine {
+		for try := 0; try < 200000; try++ {
+			_, _ = rand.Read(content.Data[:min(16, size)])
+			raw, perr := r.tree.PrepareChange(content)
+			if perr != nil {
+				r.tree.Unlock()
+				return w.end(perr)
+			}
+			if (lo == "" || raw.Id > lo) && (hi == "" || raw.Id < hi) {
+				mined = raw.Id
+				break
+			}
+		}
+		if mined == "" {
+			w.rankMisses++
+		}
+	}
+	res, err := r.tree.AddContent(bg, content)
 	r.tree.Unlock()
+	if err == nil && mined != "" && (len(res.Added) != 1 || res.Added[0].Id != mined) {
+		w.rankMisses++
+	}
 	sr := w.end(err)
 	if err == nil && len(res.Added) == 1 {
 		a := res.Added[0]
